@@ -9,8 +9,8 @@ Model of the token stream and of the lexer's bookkeeping in /repo/experimental:
 * `internal/lexer/loop.go` `fuseBraces`: the bracket matcher, a stack machine over the bracket
   tokens pushed by the main loop.
 
-Everything is mirrored as it is written, including what the code does *not* do (nothing flushes
-`badBytes` after the main loop).  Go panics that the theorems show unreachable are modelled by
+Everything is mirrored as it is written (`flush` is `lexer.flushUnrecognized`, called at the head of
+every `keyword` push and, since commit cb845bb5, once more after the main loop).  Go panics that the theorems show unreachable are modelled by
 sticky flags (`overflow`, `fusePanic`) instead of aborting.
 -/
 namespace PCV.TokenStream
@@ -112,7 +112,7 @@ def rawPush (n : Nat) (s : LS) (len kind kw : Nat) : LS :=
   if lastEnd s.toks + len > n then { s with overflow := true }
   else { s with toks := { end_ := lastEnd s.toks + len, kind := kind, kw := kw } :: s.toks }
 
-/-- the flush at the head of `lexer.keyword` -/
+/-- `lexer.flushUnrecognized` -/
 def flush (n : Nat) (s : LS) : LS :=
   if s.bad > 0 then
     let e0 := lastEnd s.toks
